@@ -283,6 +283,7 @@ class Ctx:
         """cases: list of (coq_input_literal, expected_python_value, json_case).
         `fn` is a Coq term : input -> val.  Returns indices of disagreeing cases."""
         t0 = time.time()
+        self.ensure_built(imports)
         d = os.path.join(BUILD, "cases", self.prop, name)
         shutil.rmtree(d, ignore_errors=True)
         os.makedirs(d)
@@ -342,7 +343,29 @@ class Ctx:
             self.samples.append({"correspondence": name, "case": cases[0][2], "impl_output": jsonable(cases[0][1])})
         return sorted(bad)
 
+    def ensure_built(self, imports):
+        """The modules a case file imports must be compiled even when they are not in the closure of Props/Cxx.v
+        (e.g. a model file only the correspondence uses): build them (full .vo, under the lock) once per run."""
+        done = getattr(self, "_built_imports", set())
+        want = []
+        for imp in imports:
+            if imp.startswith("Webob.") and imp not in done:
+                rel = imp[len("Webob."):].replace(".", "/") + ".vo"
+                if os.path.exists(os.path.join(COQ, rel[:-1])):
+                    want.append(rel)
+                done.add(imp)
+        self._built_imports = done
+        if not want:
+            return
+        os.makedirs(BUILD, exist_ok=True)
+        with open(os.path.join(BUILD, "coq.lock"), "w") as lk:
+            fcntl.flock(lk, fcntl.LOCK_EX)
+            ok, log = coq_make(want, 1500, tag=self.prop + "_corr")
+        if not ok:
+            self.broken.append("model files needed by the correspondence do not build: %s" % _first_error(log))
+
     def model_eval(self, imports, term):
+        self.ensure_built(imports)
         """Evaluate a closed Coq term with vm_compute and return the printed text (for replays)."""
         d = os.path.join(BUILD, "cases", self.prop, "_eval")
         os.makedirs(d, exist_ok=True)
